@@ -151,6 +151,11 @@ func (c *Case) pkgFlag(srcName string) string {
 	case 1:
 		return srcName
 	case 2:
+		// "any other package": alternately a fresh name and the base name of the source
+		// directory (which differs from the source package's declared name in every fixture)
+		if c.Cfg.Custom {
+			return strings.ReplaceAll(filepath.Base(c.Dir), "-", "_")
+		}
 		return "other"
 	case 3:
 		return srcName + "_test"
